@@ -453,6 +453,16 @@ def apply_function_reference(bodies_json, ref):
         if len(c) == 1:
             pairs.setdefault(c[0], []).append(m)
     ren = dict((n, ms[0]) for n, ms in pairs.items() if len(ms) == 1)
+    # a function that kept its name and signature but moved to another module / impl block of the crate
+    moved = {}
+    for m in missing:
+        if m in ren.values():
+            continue
+        last = m.rsplit("::", 1)[-1]
+        c = [n for n in new if n not in ren and n.rsplit("::", 1)[-1] == last and cur[n][1] == ref[m][1]]
+        if len(c) == 1:
+            moved.setdefault(c[0], []).append(m)
+    ren.update((n, ms[0]) for n, ms in moved.items() if len(ms) == 1)
     if not ren:
         return []
     olds = sorted(ren, key=len, reverse=True)
